@@ -114,6 +114,7 @@ def main():
     cp.glue_cases(run)
     cp.edge_cases(run, run.n(150, 4000))
     cp.edgeX_cases(run, run.n(150, 4000))
+    cp.edgeS_cases(run, run.n(60, 1500))
     pipeline_cases(run)
     run.rule = ('(1) real MQ.send/MQ.recv/Filter.process_frames with stub sender/receiver vs the MQGlue model; (1b) the real ZMQReceiver on '
                 'well-formed-publisher schedules machine-checked to satisfy the hypotheses of C03_edge_lossless, frames handed out compared with '
